@@ -54,7 +54,7 @@ func c03(c *ctx) {
 	for _, sz := range []int{2, 3, 5, 8, 13, 21} {
 		cfgs = append(cfgs, config{name: fmt.Sprintf("size%d", sz), v: vPlain, memo: sz%2 == 1, size: sz})
 	}
-	f := &family{c: c, tag: "c03", configs: cfgs, noexec: true, history: []string{"memo", "both"}}
+	f := &family{c: c, tag: "c03", configs: cfgs, noexec: true, history: []string{"memo", "both"}, pairs: []string{"memo"}}
 	f.judge = func(cs *gcase, e entry, it *ref.Interp, refOK bool, refEnd int, res map[string]*corpus.Res) {
 		covAccumulate(c, it)
 		id := report.Hash(cs.text, fmt.Sprint(e.rule), e.input)
@@ -185,7 +185,7 @@ func c05(c *ctx) {
 		cases = append(cases, cs)
 	}
 	cfgs := []config{{name: "plain", v: vPlain, memo: true}, {name: "nomemo", v: vPlain}}
-	f := &family{c: c, tag: "c05", configs: cfgs, stdout: true, noexec: true}
+	f := &family{c: c, tag: "c05", configs: cfgs, stdout: true, noexec: true, pairs: []string{"plain"}, history: []string{"plain"}}
 	f.judge = func(cs *gcase, e entry, it *ref.Interp, refOK bool, refEnd int, res map[string]*corpus.Res) {
 		id := report.Hash(cs.text, fmt.Sprint(e.rule), e.input)
 		wantShape, wantText := it.TreeShape(), it.TreeString()
